@@ -127,6 +127,8 @@ func init() {
 					fc.Open = open
 					fc.Mode = "seq"
 					fc.Script = append(fc.Script, []any{"asbytes"})
+					// the length asked of a fresh reader before anything was read from it (how byte-range matchers start)
+					fc.Script = append(fc.Script, []any{"open", 2}, []any{"seek", 2, 0, 2}, []any{"seek", 2, -1, 2}, []any{"read", 2, 2})
 					for _, b := range uniq([]int{1, 2, sh.k - 1, sh.k, sh.k + 1, 2*sh.k + 1, L, L + 7}) {
 						fc.Script = append(fc.Script, []any{"open", 1}, []any{"readall", 1, b}, []any{"seek", 1, 0, 2})
 					}
@@ -147,12 +149,12 @@ func init() {
 			}
 		case "deep":
 			// narrow widths with many one-byte chunks (trees of 8..10 levels), and contents with repeated chunks
-			for _, nw := range [][2]int{{128, 2}, {129, 2}, {130, 2}, {257, 2}, {730, 3}} {
+			for _, nw := range [][2]int{{128, 2}, {129, 2}, {130, 2}, {257, 2}, {730, 3}, {1024, 1024}, {1025, 1024}} {
 				if nw[0] > *maxN {
 					continue
 				}
 				sh := shape{nw[0], nw[1], 1, 1}
-				for _, open := range []string{"direct", "preload"} {
+				for _, open := range []string{"direct", "preload", "reify"} {
 					fc := sh.fileCase(fmt.Sprintf("deep-%d-%d-%s", sh.n, sh.w, open))
 					fc.Open = open
 					fc.Content = "random"
@@ -350,6 +352,18 @@ func init() {
 						if err := runFileCase(fc, tr); err != nil {
 							return err
 						}
+					}
+				}
+			}
+		case "chunkers":
+			// every chunker string form at its parameter boundaries (the largest permitted chunk is 1 MiB, inclusive), read back
+			for i, ch := range []string{"size-1048576", "size-1048575", "size-262145", "default", "rabin-262144-524288-1048576", "buzhash"} {
+				for _, content := range []string{"random", "repeat"} {
+					fc := &FileCase{Fam: "file", ID: fmt.Sprintf("chunker-%s-%s", ch, content), Len: 5*(1<<19) + 5, Chunker: ch, W: []int{174, 2}[i%2],
+						Content: content, Seed: int64(i + 1), Writer: "own", Open: []string{"direct", "reify", "preload"}[i%3], Mode: "random"}
+					fc.Script = [][]any{{"asbytes"}, {"open", 1}, {"seek", 1, 0, 2}, {"seek", 1, 0, 0}, {"readall", 1, 1 << 16}, {"seek", 1, 1 << 20, 0}, {"read", 1, 9}}
+					if err := runFileCase(fc, tr); err != nil {
+						return fmt.Errorf("%s: %w", fc.ID, err)
 					}
 				}
 			}
